@@ -39,4 +39,5 @@ pub fn texts(seed: u64, n: usize, broken: bool) -> Vec<String> {
 /// parse "... thorough:<seed>" out of the obligation string handed to `cases`
 pub fn thorough_seed(ob: &str) -> Option<u64> { ob.split_whitespace().find_map(|w| w.strip_prefix("thorough:").or_else(|| w.strip_prefix("quick:"))).and_then(|s| s.parse().ok()) }
 /// how many random texts: the full count in the thorough tier, a quarter in the quick tier
-pub fn scale(ob: &str, n: usize) -> usize { if ob.contains("thorough:") { n } else { n / 4 } }
+/// number of seeded random items: the quick tier takes a quarter, the thorough tier twenty times the nominal count (the families are cheap: all of them together run in about a second at the nominal count)
+pub fn scale(ob: &str, n: usize) -> usize { if ob.contains("thorough:") { n * 20 } else { n / 4 } }
